@@ -957,12 +957,14 @@ class EventBus:
         # Clear idle state when we get an event
         self._on_idle.clear()
 
-        # Always acquire the global lock (it's re-entrant across tasks)
-        async with _get_global_lock():
-            # Process the event
-            await self.process_event(event, timeout=timeout)
-
-            # Mark task as done only if we got it from the queue
+        try:
+            # Always acquire the global lock (it's re-entrant across tasks)
+            async with _get_global_lock():
+                # Process the event
+                await self.process_event(event, timeout=timeout)
+        finally:
+            # Mark task as done only if we got it from the queue - on every exit path (error, cancellation),
+            # otherwise the queue's unfinished-task count never reaches zero and wait_until_idle() hangs forever
             if from_queue:
                 self.event_queue.task_done()
 
